@@ -27,8 +27,25 @@ func vC38_gcBuild(K int) [3]*GCounter {
 		case 3:
 			rep[r] = rep[r].Merge(rep[(r+2)%3]).(*GCounter)
 		}
+		rep[r] = vC38_gcNorm(rep[r])
 	}
 	return rep
+}
+
+// faithful rebuild of a counter into one fresh object (keeps the symbolic execution from carrying one
+// alternative object per operation kind); node ids outside {a,b,c} never occur
+func vC38_gcNorm(c *GCounter) *GCounter {
+	out := &GCounter{state: make(map[string]uint64), delta: make(map[string]uint64)}
+	for i := 0; i < 3; i++ {
+		n := vC38_nodes[i]
+		if v, ok := c.state[n]; ok {
+			out.state[n] = v
+		}
+		if v, ok := c.delta[n]; ok {
+			out.delta[n] = v
+		}
+	}
+	return out
 }
 
 func vC38_gcSnap(c *GCounter) [3]uint64 {
@@ -69,9 +86,10 @@ func vC38_gcounter() {
 	vAssert(vC38_gcSnap(xx) == sx && xx.Value() == x.Value(), "merge is idempotent")
 	c := x.Clone().(*GCounter)
 	vAssert(vC38_gcSnap(c) == sx && c.Value() == x.Value(), "Clone yields an equal counter")
+	dx := x.delta["a"]
 	c.state["a"] = c.state["a"] + 1
-	c.delta["a"] = 7
-	vAssert(vC38_gcSnap(x) == sx && x.delta["a"] != 7 || false, "Clone shares no storage with the original")
+	c.delta["a"] = dx + 1
+	vAssert(vC38_gcSnap(x) == sx && x.delta["a"] == dx, "Clone shares no storage with the original")
 	if sx[0] > 0 && sx[1] > 0 && sy[2] > sx[2] {
 		vCover("x-knows-two-nodes-y-ahead-on-third")
 	}
